@@ -282,6 +282,7 @@ func (w *Writer) buildMapNode(v map[string]any) (n *node) {
 		}
 		mn.key = make([]byte, len(w.buf))
 		copy(mn.key, w.buf)
+		mn.name = k
 		if 2 < n.size {
 			n.size++ // space
 			if !w.SEN {
@@ -327,6 +328,7 @@ func (w *Writer) buildGenMapNode(v gen.Object) (n *node) {
 		}
 		mn.key = make([]byte, len(w.buf))
 		copy(mn.key, w.buf)
+		mn.name = k
 		if 2 < n.size {
 			n.size++ // space
 			if !w.SEN {
